@@ -126,4 +126,11 @@ CHECKS = {
              'gas-only / condensed-only chemicals accordingly; TLC checks ledger, non-negativity and persistence of the locked placement over all call sequences on small tables. Histories of 8 calls on random real streams '
              '(7 chemicals incl. gas-, liquid- and solid-only ones, flows over six decades, every initial distribution over g/l/L/s, all supported specification pairs) are logged in quanta of 1e-8 and judged by TLC.',
         note='Trusted: TLC; the solvers are not modelled (contract only); calls that raise are not judged; H/S targets come from the library\'s own bounding flashes.'),
+    'C15': dict(
+        engine='LiquidEq', category='model_checking',
+        technique='TLA+ spec of the LLE solver object\'s memory protocol (what is remembered, when it is reused) with the call contracts (LiquidEq.tla) model-checked by TLC; TLC witness schedules and random histories on real lle / sle calls validated by TLC',
+        text='TLC explores all sequences of lle calls (temperatures x compositions x chemical sets x reuse allowed / forbidden) on the memory protocol: the split returned is always the equilibrium of the current call (Fresh); with the reuse test as '
+             'originally written the invariant fails (vacuity guard) and that schedule is replayed. Every witness schedule runs on a reusing stream, a non-reusing twin and a scaled twin; TLC judges equality with the fresh solve, activities, proportionality, '
+             'top-chemical labelling; sle histories: only the solute moves, never more dissolved than present / than the given solubility, pure solute by melting point.',
+        note='Trusted: TLC; activities evaluated with the library\'s own Gamma object; solver numerics not modelled. Known finding: the default pseudo-equilibrium method returns phases with unequal activities.'),
 }
